@@ -292,6 +292,7 @@ func checkC13(c *Ctx) {
 	c.rule("C13.R12", "what a lookup hands back is used only where it is known to have been found: every use of v after `v, ok := f(…)` on a (T, bool) function of package markup is entailed by ok", 1)
 	c.rule("C13.R13", "the text of a markup value: true/false are spelled under the matching test of BoolValue; a float is rendered through its integer part only where it equals it", 2)
 	c.rule("C13.R14", "the implicit character attribute (`Name: ` prefix) is appended only on paths where a presence test — a flag set true only under X.Name == character, slices.ContainsFunc with that predicate, or the found flag of a lookup by that name — is false", 1)
+	c.rule("C13.R15", "close-all closes every open marker once: the arm that appends one attribute per open marker empties the list of open markers afterwards", 1)
 	c.rule("C13.R8", "a decimal property value is a function of the fraction's digits as written: the float stored for a decimal literal depends on a string read from the line (not only on integers parsed from it, which cannot tell 05 from 5)", 1)
 	mp := w.Pkg("markup")
 	if mp == nil {
@@ -311,6 +312,7 @@ func checkC13(c *Ctx) {
 	checkWrapNonNil(c, "C13.R11", "markup")
 	c13ValueText(c)
 	c13ImplicitCharacter(c)
+	c13CloseAll(c)
 	checkFoundFlag(c, "C13.R12", "markup")
 	c13Decimal(c)
 }
